@@ -73,7 +73,7 @@ impl Check for C08 {
         vec!["iterators are driven for at most 20000 items per cloud, fewer for prototypes with thousands of records (C09 covers the bound on the number of items)".into()]
     }
     fn budget(t: Tier) -> usize {
-        t.pick(40_000, 2_000_000)
+        t.pick(100_000, 3_000_000)
     }
     fn gen(s: &mut Src, _t: Tier) -> Case {
         let script = gen_script(s);
